@@ -58,6 +58,29 @@ unsafe extern "C" {
     fn free(p: *mut u8);
 }
 
+/// Under Kani a shim check is an assertion.  In a native replay the allocator must not panic
+/// (a panic inside the global allocator aborts the process), so the first violated check is recorded
+/// and reported after the run.
+#[cfg(kani)]
+macro_rules! shim_assert {
+    ($c:expr, $m:literal) => {
+        assert!($c, $m)
+    };
+}
+#[cfg(not(kani))]
+pub static mut NATIVE_VIOLATION: Option<&'static str> = None;
+#[cfg(not(kani))]
+macro_rules! shim_assert {
+    ($c:expr, $m:literal) => {
+        #[allow(unused_unsafe)]
+        unsafe {
+            if !($c) && NATIVE_VIOLATION.is_none() {
+                NATIVE_VIOLATION = Some($m);
+            }
+        }
+    };
+}
+
 #[cfg(kani)]
 #[inline(always)]
 fn choose_fail() -> bool {
@@ -65,7 +88,7 @@ fn choose_fail() -> bool {
 }
 #[cfg(not(kani))]
 fn choose_fail() -> bool {
-    false
+    crate::nk::any()
 }
 
 unsafe fn decide_fail() -> bool {
@@ -95,7 +118,10 @@ unsafe fn find(p: *mut u8) -> usize {
 unsafe fn record(p: *mut u8, size: usize, align: usize) {
     unsafe {
         let slot = find(core::ptr::null_mut());
-        assert!(slot < MAXB, "[shim] more live blocks than the shim tracks");
+        shim_assert!(slot < MAXB, "[shim] more live blocks than the shim tracks");
+        if slot >= MAXB {
+            return;
+        }
         S.ptr[slot] = p;
         S.size[slot] = size;
         S.align[slot] = align;
@@ -108,9 +134,9 @@ unsafe fn record(p: *mut u8, size: usize, align: usize) {
 pub unsafe fn shim_alloc(layout: Layout) -> *mut u8 {
     unsafe {
         S.reqs += 1;
-        assert!(!S.forbid, "[shim] allocator request inside a no-request region");
-        assert!(!(S.forbid_after_fail && S.window && S.fails > S.fails_at_open), "[shim] allocator request after a refused request, before the panic");
-        assert!(layout.size() > 0, "[shim] zero-sized request");
+        shim_assert!(!S.forbid, "[shim] allocator request inside a no-request region");
+        shim_assert!(!(S.forbid_after_fail && S.window && S.fails > S.fails_at_open), "[shim] allocator request after a refused request, before the panic");
+        shim_assert!(layout.size() > 0, "[shim] zero-sized request");
         if layout.size() > LIMIT {
             S.fails += 1;
             return core::ptr::null_mut();
@@ -130,9 +156,12 @@ pub unsafe fn shim_alloc(layout: Layout) -> *mut u8 {
 pub unsafe fn shim_dealloc(ptr: *mut u8, layout: Layout) {
     unsafe {
         let slot = find(ptr);
-        assert!(slot < MAXB, "[shim] dealloc of a block that is not live (double free / invalid free)");
-        assert!(S.size[slot] == layout.size(), "[shim] dealloc with a size different from the allocation");
-        assert!(S.align[slot] == layout.align(), "[shim] dealloc with an alignment different from the allocation");
+        shim_assert!(slot < MAXB, "[shim] dealloc of a block that is not live (double free / invalid free)");
+        if slot >= MAXB {
+            return;
+        }
+        shim_assert!(S.size[slot] == layout.size(), "[shim] dealloc with a size different from the allocation");
+        shim_assert!(S.align[slot] == layout.align(), "[shim] dealloc with an alignment different from the allocation");
         S.ptr[slot] = core::ptr::null_mut();
         S.frees += 1;
         S.live -= 1;
@@ -143,13 +172,16 @@ pub unsafe fn shim_dealloc(ptr: *mut u8, layout: Layout) {
 pub unsafe fn shim_realloc(ptr: *mut u8, layout: Layout, new_size: usize) -> *mut u8 {
     unsafe {
         S.reqs += 1;
-        assert!(!S.forbid, "[shim] allocator request inside a no-request region");
-        assert!(!(S.forbid_after_fail && S.window && S.fails > S.fails_at_open), "[shim] allocator request after a refused request, before the panic");
+        shim_assert!(!S.forbid, "[shim] allocator request inside a no-request region");
+        shim_assert!(!(S.forbid_after_fail && S.window && S.fails > S.fails_at_open), "[shim] allocator request after a refused request, before the panic");
         let slot = find(ptr);
-        assert!(slot < MAXB, "[shim] realloc of a block that is not live");
-        assert!(S.size[slot] == layout.size(), "[shim] realloc with a size different from the allocation");
-        assert!(S.align[slot] == layout.align(), "[shim] realloc with an alignment different from the allocation");
-        assert!(new_size > 0, "[shim] zero-sized realloc");
+        shim_assert!(slot < MAXB, "[shim] realloc of a block that is not live");
+        if slot >= MAXB {
+            return core::ptr::null_mut();
+        }
+        shim_assert!(S.size[slot] == layout.size(), "[shim] realloc with a size different from the allocation");
+        shim_assert!(S.align[slot] == layout.align(), "[shim] realloc with an alignment different from the allocation");
+        shim_assert!(new_size > 0, "[shim] zero-sized realloc");
         if new_size > LIMIT {
             S.fails += 1;
             return core::ptr::null_mut();
@@ -248,7 +280,7 @@ pub fn type_eq_stub<T: ?Sized, U: ?Sized>() -> bool {
     }
     // loop-free (unrolled) comparison, so that harnesses can keep a tiny unwind bound for the
     // formatter's own loops
-    assert!(n <= 48, "[shim] type name longer than the unrolled comparison");
+    shim_assert!(n <= 48, "[shim] type name longer than the unrolled comparison");
     let mut eq = true;
     macro_rules! at {
         ($($i:literal)*) => { $( if $i < n && a[$i] != b[$i] { eq = false; } )* };
@@ -265,4 +297,101 @@ pub unsafe fn shim_dealloc_nonnull(ptr: core::ptr::NonNull<u8>, layout: Layout) 
 }
 pub unsafe fn shim_realloc_nonnull(ptr: core::ptr::NonNull<u8>, layout: Layout, new_size: usize) -> *mut u8 {
     unsafe { shim_realloc(ptr.as_ptr(), layout, new_size) }
+}
+
+
+// ---------------------------------------------------------------------------------------------
+// Native replay: the same shim behind a #[global_allocator], active only while a replay runs.
+// ---------------------------------------------------------------------------------------------
+#[cfg(not(kani))]
+std::thread_local! {
+    /// only the thread that runs the replay sees the shim (const-initialised, no destructor: safe to
+    /// touch from inside the allocator)
+    static IN_REPLAY: core::cell::Cell<bool> = const { core::cell::Cell::new(false) };
+}
+#[cfg(not(kani))]
+fn active() -> bool {
+    IN_REPLAY.try_with(|c| c.get()).unwrap_or(false)
+}
+#[cfg(not(kani))]
+fn set_active(v: bool) {
+    let _ = IN_REPLAY.try_with(|c| c.set(v));
+}
+#[cfg(not(kani))]
+pub struct ShimAlloc;
+#[cfg(not(kani))]
+unsafe impl core::alloc::GlobalAlloc for ShimAlloc {
+    unsafe fn alloc(&self, layout: Layout) -> *mut u8 {
+        unsafe {
+            if active() {
+                shim_alloc(layout)
+            } else {
+                std::alloc::System.alloc(layout)
+            }
+        }
+    }
+    unsafe fn dealloc(&self, ptr: *mut u8, layout: Layout) {
+        unsafe {
+            if active() && find(ptr) < MAXB {
+                shim_dealloc(ptr, layout)
+            } else {
+                std::alloc::System.dealloc(ptr, layout)
+            }
+        }
+    }
+    unsafe fn realloc(&self, ptr: *mut u8, layout: Layout, new_size: usize) -> *mut u8 {
+        unsafe {
+            if active() && find(ptr) < MAXB {
+                shim_realloc(ptr, layout, new_size)
+            } else {
+                std::alloc::System.realloc(ptr, layout, new_size)
+            }
+        }
+    }
+}
+#[cfg(not(kani))]
+#[global_allocator]
+static GLOBAL: ShimAlloc = ShimAlloc;
+
+/// Run `f` as a replay: shim active, counters reset.  Returns "ok" | "assume" | the panic message.
+#[cfg(not(kani))]
+pub fn replay<F: FnOnce() + std::panic::UnwindSafe>(vals: &[&[u8]], f: F) -> String {
+    crate::nk::load(vals);
+    unsafe {
+        S.reqs = 0;
+        S.frees = 0;
+        S.live = 0;
+        S.fails = 0;
+        S.window = false;
+        S.forbid = false;
+        S.moves = 0;
+        S.forbid_after_fail = false;
+        S.fail_at = 0;
+        S.ptr = [core::ptr::null_mut(); MAXB];
+        NATIVE_VIOLATION = None;
+    }
+    // the shim is switched off the moment a panic starts (message formatting allocates)
+    let prev = std::panic::take_hook();
+    std::panic::set_hook(Box::new(|_| set_active(false)));
+    set_active(true);
+    let r = std::panic::catch_unwind(f);
+    set_active(false);
+    std::panic::set_hook(prev);
+    if let Some(m) = unsafe { NATIVE_VIOLATION } {
+        return format!("panic: {m}");
+    }
+    match r {
+        Ok(()) => "ok".to_string(),
+        Err(e) => {
+            if e.downcast_ref::<crate::nk::AssumeFailed>().is_some() {
+                "assume".to_string()
+            } else if let Some(s) = e.downcast_ref::<&str>() {
+                format!("panic: {s}")
+            } else if let Some(s) = e.downcast_ref::<String>() {
+                format!("panic: {s}")
+            } else {
+                "panic: <non-string payload>".to_string()
+            }
+        }
+    }
 }
